@@ -23,6 +23,19 @@ def forge_vectors(c, maxn, ets, dirs):
     return vecs
 
 
+def octopus_vectors(c):
+    d = c.specdir()
+    cfg = "MC_Forge_octo.cfg"
+    with open(os.path.join(d, cfg), "w") as f:
+        f.write("SPECIFICATION OSpec\nCONSTANTS\n  Replica = {\"A\"}\n  NBug = 1\n  Author = {\"u1\"}\n  MaxHop = 1000000\n"
+                "  MaxN = 6\n  Far = 1000005\n  RankDirs <- OneDir\n  EtChoices <- EtSmall\nINVARIANTS OkImpliesCausal Emit\nCHECK_DEADLOCK FALSE\n")
+    r = c.tlc_model("MC_Forge", cfg, timeout=600, label="forged histories: a commit joining 2-4 concurrent children")
+    vecs = [v for v in r.printed() if "dag" in v]
+    if len(vecs) < 30 or not any(v["ok"] for v in vecs) or all(v["ok"] for v in vecs):
+        raise Broken("octopus vectors: %d, need readable and refused ones" % len(vecs))
+    return vecs
+
+
 def run_forge(c, vecs, tag):
     vf = os.path.join(c.scratch, "forge-%s.ndjson" % tag)
     with open(vf, "w") as f:
@@ -47,7 +60,7 @@ def shape_key(v):
 
 
 def forge(c):
-    vecs = forge_vectors(c, 3, "EtFull", "BothDirs")
+    vecs = forge_vectors(c, 3, "EtFull", "BothDirs") + octopus_vectors(c)
     if c.tier == "thorough":
         vecs += forge_vectors(c, 4, "EtSmall", "OneDir")
     mism, stats = run_forge(c, vecs, "main")
